@@ -13,6 +13,7 @@ import re
 
 _MV = "__mv_"
 _MVS = "__mvs_"
+_LIT = "__lit_"     # @name in a pattern: this very local name
 _cache = {}
 
 
@@ -22,6 +23,7 @@ def _compile(pattern, mode):
         src = pattern.replace("$**", "**__mvk_any")
         src = re.sub(r"\$\*(\w+)", r"*" + _MVS + r"\1", src)
         src = re.sub(r"\$(\w+)", _MV + r"\1", src)
+        src = re.sub(r"@(\w+)", _LIT + r"\1", src)
         tree = ast.parse(src, mode="exec")
         if mode == "expr":
             if len(tree.body) != 1 or not isinstance(tree.body[0], ast.Expr):
@@ -41,7 +43,40 @@ def same(a, b):
     return a == b
 
 
+import builtins as _builtins
+
+# Names that denote something fixed (builtins, module-level symbols and
+# imports of the analysed package, self/cls/super).  Every *other* plain name
+# in a pattern is taken to be a local variable or parameter of the code under
+# analysis: it matches any name, consistently within one match, so that
+# renaming a local does not change what a rule sees.
+LITERAL_NAMES = set(dir(_builtins)) | {"self", "cls", "super"}
+
+
+def set_literal_names(names):
+    LITERAL_NAMES.update(names)
+
+
+def _is_local_name(name):
+    return name not in LITERAL_NAMES and not name[:1].isupper()
+
+
 def _m(p, s, b):
+    if isinstance(p, ast.Name) and p.id.startswith(_LIT):
+        return isinstance(s, ast.Name) and s.id == p.id[len(_LIT):]
+    if isinstance(p, ast.Name) and not p.id.startswith((_MV, _MVS)) \
+            and _is_local_name(p.id):
+        if not isinstance(s, ast.Name):
+            return False
+        if _is_local_name(s.id) is False:
+            return False
+        key = "~" + p.id
+        if key in b:
+            return b[key] == s.id
+        if s.id in [v for k, v in b.items() if k.startswith("~")]:
+            return False    # two pattern locals never share one name
+        b[key] = s.id
+        return True
     if isinstance(p, ast.Name) and p.id.startswith(_MV):
         name = p.id[len(_MV):]
         if not isinstance(s, ast.AST):
